@@ -249,7 +249,7 @@ def run_impl(c):
         valid, errors = validate_tracklets(a_nodes, edges, a_labels)
     except Exception as e:
         return {"exc": type(e).__name__}
-    out = {"valid": bool(valid), "named": named_ids(errors, "Tracklet"), "msgs": parsed_msgs(errors)}
+    out = {"valid": bool(valid), "named": named_ids(errors, "Tracklet", set(c["labels"])), "msgs": parsed_msgs(errors)}
     if c.get("via") == "data":
         from geff.validate.data import ValidationConfig, validate_data
         from geff_spec import GeffMetadata
